@@ -152,11 +152,11 @@ DecJson(w) ==
    proof |-> IF has("proof") THEN (IF "rsig" \in w.proofkeys THEN "sig" ELSE "nosig") ELSE "none"]
 
 \* ---------------------------------------------------------- V4 binary -----
-(* SlateOptFields::write: the first status byte.  NOTE at the pinned commit bit
-   0x04 tests fee.fee() > 0, the fee masked to its low 40 bits, not
-   FeeFields::is_zero.  fixes/C08-1.patch changes the test to !fee.is_zero():
-   when that patch is in /repo set BinFeeTestMasked to FALSE (until then Layer M
-   reports the difference as NONCONFORMANCE on fee = 2^40, nothing else changes). *)
+(* SlateOptFields::write: the first status byte.  Before fixes/C08-1.patch
+   (/repo 8692f3c) bit 0x04 tested fee.fee() > 0, the fee masked to its low 40
+   bits; since then it tests !fee.is_zero(), the whole word, like the JSON form.
+   BinFeeTestMasked = TRUE transcribes the old writer, FALSE the current one (a
+   wrong setting only shows as Layer-M NONCONFORMANCE on fee = 2^40). *)
 BinFeeTestMasked == FALSE
 BinFeePresent(t) == IF BinFeeTestMasked THEN ~FeeLowZero(t) ELSE ~IsZero(t)
 BinStatus(v) ==
@@ -189,21 +189,25 @@ BinLen(v) ==
       + (IF v.proof # "none" THEN 32 + 32 + 1 + (IF v.proof = "sig" THEN 64 ELSE 0) ELSE 0)
   + (IF v.feat = 2 THEN 8 ELSE 0)
 
-(* SigsWrapRef::write: "writer.write_u8(self.0.len() as u8)": at the pinned commit the
-   participant count is truncated to one byte and all entries are written.
-   fixes/C08-2.patch makes the writer refuse (Err) more entries than the count can
-   carry: when that patch is in /repo set BinCountChecked to TRUE. *)
+(* SigsWrapRef::write: "writer.write_u8(self.0.len() as u8)".  Before
+   fixes/C08-2.patch (/repo 0c4a5e0) the participant count was truncated to one
+   byte and all entries were written; since then the writer refuses (CountError)
+   more entries than the count can carry.  BinCountChecked = FALSE transcribes
+   the old writer, TRUE the current one. *)
 BinCountChecked == TRUE
 CountU8(n) == n % 256
-\* a slate the binary form can carry at all: the participant list fits its count, and a height-locked
-\* kernel has its height (the format has no way to say "feat = 2 without feat_args")
-BinRepresentable(v) == Len(v.sigs) <= 255 /\ ~(v.feat = 2 /\ v.fargs = NoArg)
+\* what the patched WRITER checks (SigsWrapRef::write; the u16 count of ComsWrapRef is beyond Abs_Counts)
+BinCountFits(v) == Len(v.sigs) <= 255
+\* PROPERTY level: a slate the binary form can carry at all - the participant list fits its count, and a
+\* height-locked kernel has its height (the format has no way to say "feat = 2 without feat_args").  The
+\* writer does NOT check the second conjunct: it writes lock height 0 (see EncBin.lockhgt).
+BinRepresentable(v) == BinCountFits(v) /\ ~(v.feat = 2 /\ v.fargs = NoArg)
 
 (* SlateV4Bin::write.  The trailing lock height exists only for feat = 2
    ("Write lock height for height locked kernels"); a missing feat_args is
    written as 0. *)
 EncBin(v) ==
-  [fmt |-> "bin", encres |-> IF BinCountChecked /\ ~BinRepresentable(v) THEN "enc-err" ELSE "ok",
+  [fmt |-> "bin", encres |-> IF BinCountChecked /\ ~BinCountFits(v) THEN "enc-err" ELSE "ok",
    status |-> BinStatus(v), structs |-> BinStructs(v), val |-> v,
    sigcount |-> CountU8(Len(v.sigs)),
    sigs |-> [i \in DOMAIN v.sigs |-> EncBinSig(v.sigs[i])],
